@@ -39,11 +39,15 @@ def run(R):
     repo = R.repo
     with R.clause('D1', 'ALG', floor=3, desc='exact search: look-back covers occurrences straddling a read boundary') as c:
         check_find_offset(c, repo)
-    with R.clause('D2', 'ALG', floor=6, desc='after a miss the kept suffix is long enough; look-back = longest pattern') as c:
+    with R.clause('D6', 'ALG', floor=3, desc='look-back = longest pattern (running maximum over all stored strings)') as c:
+        check_lookback(c, repo)
+    # D2 and D4 prove the window arithmetic symbolically when the code has the shape they know; the exhaustive evaluation of D7 covers
+    # the same obligations (which suffix is searched, how much is kept) for every shape the length abstraction can execute
+    with R.clause('D2', 'ALG', floor=3, desc='after a miss the kept suffix is long enough', backed_by='D7') as c:
         check_trim(c, repo)
     with R.clause('D3', 'FLOW', floor=6, desc='freshlen / window / window-size reach the searcher unreduced') as c:
         check_freshlen(c, repo)
-    with R.clause('D4', 'DIM', floor=5, desc='seek offsets are computed from the length of the same store') as c:
+    with R.clause('D4', 'DIM', floor=5, desc='seek offsets are computed from the length of the same store', backed_by='D7') as c:
         check_seeks(c, repo)
     with R.clause('D5', 'ALG', floor=3, desc='regex search start is max(0, len(buffer)-W), 0 without a window') as c:
         check_re_start(c, repo)
@@ -210,6 +214,9 @@ def check_trim(c, repo):
     dom_ok = (norm(mdef), True) in cs_ or (M, True) in cs_
     c.check(dom_ok, f, arg, 'the negative slice bound is provably non-zero (guarded by the truthiness of the same expression): '
             'window[-0:] would keep everything', witness='no dominating truthiness test of %s' % norm(mdef), kind='path', tag='trim-negzero')
+
+
+def check_lookback(c, repo):
     # look-back is the searcher's longest_string
     e = repo.func('expect:Expecter.__init__')
     las = [n for n in iter_nodes(e.node) if isinstance(n, ast.Assign) and stmt_assigns_attr(n, 'lookback') is not None]
